@@ -29,6 +29,10 @@ RUN_DEF = "Definition run := run_history."
 
 torch.set_default_dtype(torch.float64)
 warnings.filterwarnings("ignore")
+# development aids (sensitivity experiments): VERIF_TAG keeps the scratch directories of concurrent runs apart,
+# VERIF_C03_FAMILIES=kiss,sgpr restricts the run to some families (the histories are those of the full run)
+TAGSFX = os.environ.get("VERIF_TAG", "")
+ONLY = [f for f in os.environ.get("VERIF_C03_FAMILIES", "").split(",") if f]
 
 OPS = ["Train", "Eval", "Step", "SetData", "Load", "Fantasy", "Prior", "Backward", "Predict0", "Predict1", "Predict2",
        "Predict3"]
@@ -38,7 +42,10 @@ VARIANTS = {1: "Module.train(True) does not clear caches", 2: "Module.train(Fals
             5: "clear_cache_hook on backward missing", 6: "_VariationalStrategy.__call__ does not clear in training mode",
             7: "kernel._clear_cache missing", 8: "ExactGP._clear_cache missing",
             9: "_VariationalStrategy._clear_cache missing", 10: "KISS-GP covar_cache pair not re-keyed",
-            11: "Module.train override missing (no clearing on any mode change)"}
+            11: "Module.train override missing (no clearing on any mode change)",
+            12: "staleness guard missing (SGPR strategy not rebuilt when sgpr_diagonal_correction changes / "
+                "variational memo not cleared when variational_cholesky_jitter changes)",
+            13: "get_fantasy_model does not restore the source model when the copy raises"}
 ATOL = 1e-8
 
 
@@ -497,18 +504,19 @@ def run_history(fam, oracle, hist, trace, keep=False):
             elif o == O_STEP:
                 do_step(fam, model)
             elif o == O_SETDATA:
-                # version k of the data: both / inputs only / targets only replaced (k mod 3 = 1 / 2 / 0)
+                # version k of the data: targets only / inputs only / both replaced (k mod 3 = 1 / 2 / 0): the
+                # partial updates come first so that the exhaustive short histories contain them
                 k = tr["dv"]
                 X, y = fam.data[k % len(fam.data)]
                 if k % 3 == 1:
-                    data = (X, y)
-                    model.set_train_data(X.clone(), y.clone(), strict=False)
+                    data = (data[0], y)
+                    model.set_train_data(targets=y.clone(), strict=False)
                 elif k % 3 == 2:
                     data = (X, data[1])
                     model.set_train_data(inputs=X.clone(), strict=False)
                 else:
-                    data = (data[0], y)
-                    model.set_train_data(targets=y.clone(), strict=False)
+                    data = (X, y)
+                    model.set_train_data(X.clone(), y.clone(), strict=False)
             elif o == O_LOAD:
                 model.load_state_dict(fam.pool[tr["pv"] % len(fam.pool)])
             elif o == O_FANT:
@@ -594,7 +602,7 @@ def _worker(job):
 
 def coq_traces(tag, coqfam, hists, variant=0):
     cases = ["(%d%%nat, %d%%nat, %s)" % (coqfam, variant, C.z_list(h)) for h in hists]
-    res = C.coq_run_cases(tag, IMPORTS, RUN_DEF, cases, shard=max(50, (len(cases) + 15) // 16))
+    res = C.coq_run_cases(tag + TAGSFX, IMPORTS, RUN_DEF, cases, shard=max(50, (len(cases) + 15) // 16))
     return [decode_trace(r, len(h)) for r, h in zip(res, hists)]
 
 
@@ -696,7 +704,7 @@ def explain(fam, oracle, hist, coqfam):
     try:
         vs = sorted(VARIANTS)
         cases = ["(%d%%nat, %d%%nat, %s)" % (coqfam, v, C.z_list(hist)) for v in vs]
-        res = C.coq_run_cases("C03_explain", IMPORTS, RUN_DEF, cases, shard=len(cases))
+        res = C.coq_run_cases("C03_explain" + TAGSFX, IMPORTS, RUN_DEF, cases, shard=len(cases))
         for v, r in zip(vs, res):
             tr = decode_trace(r, len(hist))
             if tr and not tr[-1]["indep"]:
@@ -710,6 +718,9 @@ def run(out, ctx):
     tier, seed = ctx["tier"], ctx["seed"]
     torch.set_num_threads(1)
     P = plan(tier, seed)
+    if ONLY:
+        P = [x for x in P if x[0] in ONLY]
+        out.notes.append("restricted to families %s (VERIF_C03_FAMILIES)" % ONLY)
     nw = max(1, min(8, C.NPROC))
     jobs, total = [], 0
     exh = {}
@@ -754,7 +765,7 @@ def run(out, ctx):
 
 
 def failure_key(famname, p, fam):
-    if p["kind"] == "unkeyed":
+    if p["kind"] == "unkeyed":      # cannot occur while the model's history-independence theorem holds
         return "unkeyed-setting:%s:%s" % (famname, fam.cfg_names[3])
     if p["kind"] == "stale":
         return "stale:%s:%s:%s" % (famname, p["opkind"], fam.cfg_names[p["cfg"]])
